@@ -211,7 +211,7 @@ def run(ctx):
             True,
             line=0,
         )
-    _ext(ctx)
+    ctx.section(_ext, ctx)
     ctx.samples = [
         {"start": m, "modules_loaded": len(ns), "result": "ok"}
         for m, ns in list(sorted(ok_single.items()))[:: max(1, len(ok_single) // 5)][:6]
